@@ -68,11 +68,21 @@ def _feed(args):
     else:
         p = api.Project()
         target = p.new_module(cls)
+    chained = (seed % 7 == 3)
     target.name = label
     mc = p.new_module(api.m.MultiCtl)
-    mc >> target
     ctl = cls.controllers[cname]
-    mp_ = mc.mappings.values[0]
+    if chained:       # composition: this MultiCtl drives the `value` controller of a second one, which drives the target
+        relay = p.new_module(api.m.MultiCtl)
+        relay >> target
+        relay.mappings.values[0].controller = 0 if unmapped else ctl.number
+        relay.mappings.values[0].min, relay.mappings.values[0].max = wmin, wmax
+        mc >> relay
+        mc.mappings.values[0].controller = 1        # the relay's first controller: value (0..32768)
+        mc.mappings.values[0].min, mc.mappings.values[0].max = 0, 32768
+    else:
+        mc >> target
+    mp_ = mc.mappings.values[0] if not chained else api.m.MultiCtl().mappings.values[0]
     mp_.min, mp_.max = wmin, wmax
     mp_.controller = 0 if unmapped else ctl.number
     mc.gain = gain
@@ -105,7 +115,7 @@ def _feed(args):
     others = all(val(getattr(target, n)) == before[n] for n in names if n != cname)
     vt = ctl.value_type
     return {"op": "feed", "t": t, "ctl": cname, "lo": vt.min, "hi": vt.max, "gain": gain, "quant": quant, "wmin": wmin, "wmax": wmax,
-            "curve": "default" if curve is None else "custom", "unmapped": unmapped, "initial": initial, "rle": rle,
+            "curve": "default" if curve is None else "custom", "unmapped": unmapped, "chained": bool(chained), "initial": initial, "rle": rle,
             "outcome": outcome, "bad_input": bad, "others_unchanged": bool(others), "wide": bool(wide), "out_offset": out_offset,
             "kind": "range" if type(vt).__name__ == "Range" else type(vt).__name__}
 
@@ -202,8 +212,9 @@ def run(ctx):
                 mods = []
                 pairs = pairs_fn(p, mods)
                 nb = len(p.modules)
+                init = [None, 0, 32768, 0][len(events) % 4]
                 try:
-                    mc = api.m.MultiCtl.macro(p, *pairs)
+                    mc = api.m.MultiCtl.macro(p, *pairs) if init is None else api.m.MultiCtl.macro(p, *pairs, initial=init)
                     out = "ok"
                 except MappingError:
                     mc, out = None, "MappingError"
@@ -217,7 +228,20 @@ def run(ctx):
                         tgt = p.modules[tm]
                         ok_links = ok_links and mc.index in tgt.in_links and tgt.in_link_slots[tgt.in_links.index(mc.index)] == k \
                             and mc.out_link_slots[k] == tgt.in_links.index(mc.index)
-                return {"op": "macro", "targets": tg, "outcome": out, "created": mc is not None,
+                # what `initial=` delivered to the first target (ranged kinds, default window: the ends of its range)
+                t0, c0 = pairs[0]
+                c0s = next(c2 for c2 in spec[t0.mtype]["ctls"] if c2["name"] == c0)
+                deliv = []
+                if init is not None and mc is not None and c0s["kind"] == "range":
+                    found = val(getattr(t0, c0))
+                    try:                        # the same input fed again through the finished MultiCtl
+                        mc.value = 1 if init == 0 else 0
+                        mc.value = init
+                        refed = val(getattr(t0, c0))
+                    except Exception:
+                        refed = -777777
+                    deliv = [[init, found, refed, 0]]
+                return {"op": "macro", "targets": tg, "outcome": out, "created": mc is not None, "initial": deliv,
                         "attached": mc is not None and mc.parent is p and p.modules[mc.index] is mc,
                         "out_links": list(mc.out_links) if mc is not None else [],
                         "mapctl": [int(x.controller) for x in mc.mappings.values] if mc is not None else [],
